@@ -18,7 +18,9 @@
 #if VF_CONT == 1
 #include "containers/qvector.c"
 typedef qvector_t cont_t;
+#define SEQP "C10."
 #else
+#define SEQP "C09."
 #define VF_CN "list"
 #include "listmem.h"
 #include "containers/qlist.c"
@@ -38,6 +40,7 @@ typedef qlist_t cont_t;
 #define OP_SIZE 11
 #define OP_TOSTRING 12 /* list only */
 #define OP_WALKLOCKED 13 /* lock(); getnext() until false; unlock(): must observe one consistent snapshot */
+#define OP_REVERSE 14
 
 #ifndef VF_N0
 #define VF_N0 2
@@ -46,8 +49,8 @@ typedef qlist_t cont_t;
 
 struct vf_input {
     uint8_t init[VF_N0 > 0 ? VF_N0 : 1];
-    int idx1, idx2;
-    uint8_t val1, val2;
+    int idx1, idx2, idx3;
+    uint8_t val1, val2, val3;
     uint8_t sched; /* scheduling point at which T2 runs: 0 = before T1, k>=1 = k-th outermost acquire/release of T1, 99 = after T1 */
 };
 extern struct vf_input vfin;
@@ -69,6 +72,11 @@ static void seq_del(struct seq *s, int pos) {
 static uint8_t seq_at(const struct seq *s, int pos) {
     uint8_t v = 0;
     for (int i = 0; i < CAPX; i++) if (i == pos) v = s->e[i];
+    return v;
+}
+static uint8_t seq_at_arr(const uint8_t *t, int pos) {
+    uint8_t v = 0;
+    for (int i = 0; i < CAPX; i++) if (i == pos) v = t[i];
     return v;
 }
 /* sequential specification of one operation */
@@ -99,6 +107,13 @@ static void ideal(struct seq *s, int op, long idx, uint8_t val, struct res *r) {
         break;
     case OP_SIZE: r->ok = 1; r->alen = s->n; break;
     case OP_WALKLOCKED: r->ok = 1; r->alen = s->n; for (int i = 0; i < CAPX; i++) r->arr[i] = i < s->n ? s->e[i] : 0; break;
+    case OP_REVERSE: {
+        uint8_t t[CAPX];
+        for (int i = 0; i < CAPX; i++) t[i] = s->e[i];
+        for (int i = 0; i < CAPX; i++) if (i < s->n) s->e[i] = seq_at_arr(t, s->n - 1 - i);
+        r->ok = 1;
+        break;
+    }
     }
 }
 
@@ -121,6 +136,7 @@ static void real(cont_t *c, int op, int idx, uint8_t val, struct res *r) {
     case OP_CLEAR: c->clear(c); r->ok = 1; break;
     case OP_TOARRAY: p = c->toarray(c, &sz); r->alen = (int)sz; if (p) { r->ok = 1; for (int i = 0; i < CAPX; i++) r->arr[i] = i < (int)sz ? ((uint8_t *)p)[i] : 0; free(p); } p = NULL; break;
     case OP_SIZE: r->ok = 1; r->alen = (int)c->size(c); break;
+    case OP_REVERSE: c->reverse(c); r->ok = 1; break;
     case OP_WALKLOCKED: {
         qvector_obj_t o;
         memset(&o, 0, sizeof(o));
@@ -144,6 +160,7 @@ static void real(cont_t *c, int op, int idx, uint8_t val, struct res *r) {
     case OP_TOARRAY: p = c->toarray(c, &sz); r->alen = (int)sz; if (p) { r->ok = 1; for (int i = 0; i < CAPX; i++) r->arr[i] = i < (int)sz && i < CAPX ? ((uint8_t *)p)[i] : 0; free(p); } p = NULL; break;
     case OP_TOSTRING: { char *s = c->tostring(c); if (s) { r->ok = 1; int l = 0; for (int i = 0; i < CAPX; i++) if (l == i && s[i] != 0) l = i + 1; r->alen = l; for (int i = 0; i < CAPX; i++) r->arr[i] = i < l ? (uint8_t)s[i] : 0; free(s); } else r->alen = 0; } break;
     case OP_SIZE: r->ok = 1; r->alen = (int)c->size(c); break;
+    case OP_REVERSE: c->reverse(c); r->ok = 1; break;
     case OP_WALKLOCKED: {
         qlist_obj_t o;
         memset(&o, 0, sizeof(o));
@@ -219,10 +236,29 @@ void vf_harness(void) {
         seq_ins(&s0, s0.n, b);
     }
 #if VF_CONT != 1
-    VF_ASSUME(vfin.val1 != 0 && vfin.val2 != 0);
+    VF_ASSUME(vfin.val1 != 0 && vfin.val2 != 0 && vfin.val3 != 0);
 #endif
     g_c = c;
     struct res r1;
+#ifdef VF_SEQ3
+    /* --- HISTORY query: three calls in a row (kinds constant per query, arguments symbolic) from the API-built state; each
+     * result and the final contents must equal the ideal sequence's.  Complements the one-step queries (which start from a
+     * hand-built pre-state): state that one call leaves behind for a later one - cached positions, flags, stale pointers -
+     * is exercised here through the public API only. */
+    {
+        struct seq m = s0;
+        struct res i1, i2, i3, r2, r3;
+        real(c, VF_OP1, vfin.idx1, vfin.val1, &r1); ideal(&m, VF_OP1, vfin.idx1, vfin.val1, &i1);
+        VF_ASSERT(res_eq(&r1, &i1) && contents_eq(c, &m), SEQP "seq.step1: first call of a three-call history returns and leaves what the ideal sequence does");
+        real(c, VF_OP2, vfin.idx2, vfin.val2, &r2); ideal(&m, VF_OP2, vfin.idx2, vfin.val2, &i2);
+        VF_ASSERT(res_eq(&r2, &i2) && contents_eq(c, &m), SEQP "seq.step2: second call of a three-call history returns and leaves what the ideal sequence does");
+        real(c, VF_OP3, vfin.idx3, vfin.val3, &r3); ideal(&m, VF_OP3, vfin.idx3, vfin.val3, &i3);
+        VF_ASSERT(res_eq(&r3, &i3) && contents_eq(c, &m), SEQP "seq.step3: third call of a three-call history returns and leaves what the ideal sequence does");
+        VF_ASSERT(vf_lock_depth == 0, "C14.seq.lock: every call returns with the lock released");
+        c->free(c);
+        VF_REACH("end");
+    }
+#else
     /* --- concurrent execution: T1 with T2 injected at scheduling point vfin.sched --- */
     if (vfin.sched == 0) run_t2();
     vf_sched_hook = hook;
@@ -242,5 +278,6 @@ void vf_harness(void) {
     if (vfin.sched == 0) VF_ASSERT(lin_b, "C13.seq.t2t1: the harness model agrees with the code for the sequential order T2;T1");
     c->free(c);
     VF_REACH("end");
+#endif
 }
 #include "vf_main.h"
